@@ -1016,6 +1016,7 @@ theorem k_decode_eq (T : Tables) (hT : TablesAgree T) (bs : List Nat) (hb : ∀ 
 theorem decodeFull_eq (T : Tables) (cw : List Nat) :
     decodeFull T cw = (decLoop T cw 0 false 0 {}).map (fun a => (a.rev.reverse ++ a.trailer, modifier a)) := rfl
 
+when_kernel Gzx.Gen.K02e.decode in
 /-- non-vacuity: "A" in ASCII, "1A " in X12 with unlatch, an extended character by upper shift, macro 05 -/
 example : Gen.K02e.decode 60 (bytesI [66, 238, 0x21, 0x74, 254, 235, 100, 236]) 0 0 []
     = .ok ([65, 49, 65, 32, 195, 163, 91, 41, 62, 30, 48, 53, 29, 30, 4], [], 1, false, 8, 0) := by decide
